@@ -67,17 +67,18 @@ Proof.
 Qed.
 
 Lemma validate_string_map_loop_none fld all off lines : forall l seen,
+  (forall k v, In (k, v) l -> n_alias k = None) ->      (* keys that are no aliases: nodeValue(key) = key.Value (cd8be7e) *)
   validate_string_map_loop fld all off lines seen l = None ->
   (forall k v, In (k, v) l -> is_tag (n_tag v) strTag = true /\ kind_mismatch v KScalar = false) /\
   NoDup (map key_text l) /\ (forall kv, In kv l -> ~ In (key_text kv) seen).
 Proof.
-  induction l as [|[k v] r IH]; intros seen H.
+  induction l as [|[k v] r IH]; intros seen Hna H.
   - split; [intros ? ? []|split; [constructor|intros ? []]].
-  - cbn [validate_string_map_loop] in H.
+  - cbn [validate_string_map_loop] in H. rewrite (node_value_noalias k (Hna k v (or_introl eq_refl))) in H.
     destruct (negb (is_tag (n_tag v) strTag) || kind_mismatch v KScalar)%bool eqn:E1; [discriminate|].
     apply orb_false_iff in E1. destruct E1 as [E1 E1']. apply negb_false_iff in E1.
     destruct (mem_str (n_value k) seen) eqn:E2; [discriminate|].
-    destruct (IH _ H) as (A & B & C). split; [|split].
+    destruct (IH _ (fun k0 v0 H0 => Hna k0 v0 (or_intror H0)) H) as (A & B & C). split; [|split].
     + intros k0 v0 [X|X]; [inversion X; subst; split; assumption|exact (A k0 v0 X)].
     + cbn [map]. constructor; [|exact B]. intros Hin. apply in_map_iff in Hin. destruct Hin as (kv & Ek & Hkv).
       apply (C kv Hkv). rewrite Ek. left. reflexivity.
@@ -87,10 +88,11 @@ Proof.
 Qed.
 
 Lemma validate_string_map_none fld nodes off lines :
+  (forall k v, In (k, v) nodes -> n_alias k = None) ->
   validate_string_map fld nodes off lines = None ->
   (forall k v, In (k, v) nodes -> is_tag (n_tag v) strTag = true /\ kind_mismatch v KScalar = false) /\ NoDup (map key_text nodes).
 Proof.
-  intros H. destruct (validate_string_map_loop_none _ _ _ _ _ _ H) as (A & B & _). split; assumption.
+  intros Hna H. destruct (validate_string_map_loop_none _ _ _ _ _ _ Hna H) as (A & B & _). split; assumption.
 Qed.
 
 (** Entry.Labels(): every value of the rule's own labels survives the merge with the group labels. *)
@@ -290,7 +292,7 @@ Section Rule.
     2:{ left. split; [exact K|]. apply dec_strmap_null; auto. }
     - right. split; [exact K|].
       destruct (tgt_lmap x Hp K) as (_ & _ & Hl).
-      destruct (validate_string_map_none _ _ _ _ Hv) as [Hvals Hnd].
+      destruct (validate_string_map_none _ _ _ _ (fun k v Hin => proj1 (plain_self k (proj1 (Hl k v Hin)))) Hv) as [Hvals Hnd].
       apply dec_strmap_plain; auto.
       + split; [|exact Hnd]. intros k v Hin. destruct (Hl k v Hin) as [Hpk _].
         pose proof (plain_self k Hpk) as Hk. split; [exact Hk|]. split.
@@ -732,7 +734,8 @@ Section Rule.
       { rewrite K in K'. discriminate. }
       rewrite E. cbn [derr dval]. split; [reflexivity|]. split; [exact (labels_valid kl xl Hl Hb)|]. split.
       + intros Hsub Hex. exact (templates_valid kl xl checked Hl Hsub Hex).
-      + rewrite (items_keys kl xl Hl). exact (proj2 (validate_string_map_none _ _ _ _ Hv)).
+      + rewrite (items_keys kl xl Hl).
+        exact (proj2 (validate_string_map_none _ _ _ _ (fun k v Hin => proj1 (plain_self k (proj1 (proj2 (proj2 Hl) k v Hin)))) Hv)).
   Qed.
 
   Lemma annotations_facts_t kn xn ln :
